@@ -51,31 +51,47 @@ def compile_objs(objs):
     return str(HiFiber(*objs))
 
 
-def pristine_text(yaml_text, mode):
+def pristine_text(yaml_text, mode, timeout=60):
     """T(spec, h): compile in a fork of this (still pristine) interpreter."""
+    import select
+    import signal
     r, w = os.pipe()
     pid = os.fork()
     if pid == 0:
-        os.close(r)
+        # grandchild: whatever happens, never return into the caller's frames
         try:
-            out = {"text": compile_objs(parse_bundle(yaml_text, mode))}
-        except BaseException as e:  # noqa
-            out = {"error": "%s: %s" % (type(e).__name__, str(e)[:200])}
-        data = json.dumps(out).encode()
-        off = 0
-        while off < len(data):
-            off += os.write(w, data[off:off + 65536])
-        os._exit(0)
+            os.close(r)
+            signal.alarm(timeout)
+            try:
+                out = {"text": compile_objs(parse_bundle(yaml_text, mode))}
+            except BaseException as e:  # noqa
+                out = {"error": "%s: %s" % (type(e).__name__, str(e)[:200])}
+            data = json.dumps(out).encode()
+            off = 0
+            while off < len(data):
+                off += os.write(w, data[off:off + 65536])
+        finally:
+            os._exit(0)
     os.close(w)
     buf = b""
     while True:
+        ready, _, _ = select.select([r], [], [], timeout + 5)
+        if not ready:
+            try:
+                os.kill(pid, signal.SIGKILL)
+            except OSError:
+                pass
+            break
         b = os.read(r, 1 << 20)
         if not b:
             break
         buf += b
     os.close(r)
     os.waitpid(pid, 0)
-    return json.loads(buf) if buf else {"error": "pristine child died"}
+    try:
+        return json.loads(buf) if buf else {"error": "pristine child died or timed out"}
+    except ValueError:
+        return {"error": "pristine child wrote a truncated result"}
 
 
 class LineCounter:
